@@ -15,7 +15,7 @@ Extracted from /repo/src (ast only; anything unrecognised -> `none` + a failed s
 """
 import ast
 
-from translator.extract import find_class, find_func, generator, lean_list, parse, strip_docstring
+from translator.extract import all_type_args_forms, find_class, find_func, generator, lean_list, parse, strip_docstring
 
 
 def _n(node):
@@ -286,7 +286,7 @@ def gen_c03(status):
     if len(b) == 2 and isinstance(b[0], ast.If) and isinstance(b[0].test, ast.Compare) and _n(b[0].test.left) == 'cls.prim' \
             and isinstance(b[0].test.ops[0], ast.In) and isinstance(b[0].test.comparators[0], (ast.List, ast.Tuple)) \
             and _n(b[0].body[0]) == 'returnFalse' and not b[0].orelse \
-            and _n(b[1]) == 'returnall(map(lambdax:x.is_comparable(),cls.args))':
+            and ast.unparse(b[1]) in all_type_args_forms(find_class(base, 'MichelsonType'), 'is_comparable'):
         elts = b[0].test.comparators[0].elts
         if all(isinstance(e, ast.Constant) and isinstance(e.value, str) for e in elts):
             prims = [e.value for e in elts]
